@@ -140,18 +140,20 @@ def _check(prop, tier, seed, replay, work, t0):
     violations, known = [], []
     seen = set()
     for v in mine:
-        if v["trace"] in seen:
-            continue
-        seen.add(v["trace"])
         names = sorted(n for n in v["names"] if n.startswith(prop + "_"))
         sc = scen.get(v["trace"], {})
-        sig = {"invariant": names[0], "txn": sc.get("Txn"), "pipeline": sc.get("Pipe")}
-        f = vlib.known_match(prop, sig)
-        if f:
-            known.append(f)
+        unknown = []
+        for n in names:
+            f = vlib.known_match(prop, {"invariant": n, "txn": sc.get("Txn"), "pipeline": sc.get("Pipe"), "blacklist": bool(sc.get("Black"))})
+            if f:
+                known.append(f)
+            else:
+                unknown.append(n)
+        if not unknown or v["trace"] in seen:
             continue
-        path = vlib.save_replay(prop, "trace%d" % v["trace"], {"property": prop, "invariants": names, "line": v["line"], "scenario": sc})
-        violations.append({"replay": path, "what": "%s at event %d of scenario %s (%s)" % (",".join(names), v["line"], v["trace"], sc.get("Desc"))})
+        seen.add(v["trace"])
+        path = vlib.save_replay(prop, "trace%d" % v["trace"], {"property": prop, "invariants": unknown, "line": v["line"], "scenario": sc})
+        violations.append({"replay": path, "what": "%s at event %d of scenario %s (%s)" % (",".join(unknown), v["line"], v["trace"], sc.get("Desc"))})
 
     cov = {
         "states": states, "transitions": trans,
